@@ -64,7 +64,14 @@ CHECKS = {
         "quick": {"shards": 12, "budget_s": 75, "min_evaluations": 200},
         "thorough": {"shards": 14, "budget_s": 900, "min_evaluations": 2000},
         "rule": (
-            "evaluations = issuer publications observed (every repo-sync "
+            "evaluations = certificates judged at the instant of issuance "
+            "(after every API call and every single background task the "
+            "issuers' own object stores are read: a child certificate that "
+            "appeared in that one step must carry exactly entitlement x "
+            "issuing key's resources, before- or after-values of that step; "
+            "when the issuing key's certificate changed in that step also "
+            "'the part the replaced certificate and the issuer both still "
+            "hold') + issuer publications observed (every repo-sync "
             "task of every CA, each checked for containment of every "
             "published child certificate in the certificate the issuer "
             "holds for the issuing key, and for replacement of each "
@@ -175,7 +182,15 @@ CHECKS = {
             "world is stopped with k in {0,1,2,3,5} claimed, unfinished "
             "tasks (one k per shard) incl. the follow-up of a committed ROA "
             "change, restarted, and must re-run each of them, schedule every "
-            "recurring task again and publish the change. Part B: after "
+            "recurring task again and publish the change. Part D (real "
+            "start-up path): the directory of a daemon killed with k "
+            "running tasks - on odd shards with the start task itself "
+            "among them - is started through the REAL "
+            "StartupManager::run_scheduler and the real scheduler thread; "
+            "once the queue is idle nothing from before the kill may be left "
+            "in 'running', every recurring task must be scheduled and the "
+            "committed change published. "
+            "Part B: after "
             "every operation of random histories and queue quiescence "
             "(no manual sync rounds): no open request, RRDP snapshot on "
             "disk = server content, old key revoked after activation, "
@@ -191,6 +206,11 @@ CHECKS = {
             "the effect is visible then",
             "a crash is modelled as dropping the instance between two task "
             "claims/completions; cuts inside a task's own writes are C08's",
+            "Part C restarts through the harness' stand-in (the same two "
+            "calls run_scheduler makes), Part D through krill's own "
+            "start-up code; its verdict is taken on the queue's state "
+            "(idle, yet a stale running entry or a missing recurring task), "
+            "a scheduler still busy after 60 s of watching is inconclusive",
             "duplicate entries of one task name (a task scheduled again "
             "while running and then rescheduled) are tolerated: the "
             "property does not forbid them",
@@ -969,7 +989,9 @@ CHECKS = {
         "quick": {"shards": 12, "budget_s": 60, "min_evaluations": 1500},
         "thorough": {"shards": 14, "budget_s": 900, "min_evaluations": 20000},
         "rule": (
-            "One world per scenario (TA -> p -> cur, stg held in the staging "
+            "One world per scenario (TA -> {p, q}; p -> cur, stg, old; cur has "
+            "a second resource class under q so that the two classes of one "
+            "CA fall due at different times; stg held in the staging "
             "state of a key roll, old held after activation with its parent "
             "sync withheld; ROAs, ASPA, router certificate in every CA) under "
             "one of 8 timing configurations (defaults; smallest valid values; "
